@@ -28,7 +28,7 @@ func overlayFiles(specs []HarnessSpec) map[string]string {
 		m[filepath.Join(repoDir, s.Pkg, base)] = filepath.Join(verifDir, "harness", s.File)
 		// helper files shared by the harnesses of a directory: <dir>/common_<pkgbase>.go
 		dir := filepath.Dir(filepath.Join(verifDir, "harness", s.File))
-		commons, _ := filepath.Glob(filepath.Join(dir, "common_"+filepath.Base(s.Pkg)+"*.go"))
+		commons, _ := filepath.Glob(filepath.Join(dir, "common_*.go"))
 		for _, c := range commons {
 			m[filepath.Join(repoDir, s.Pkg, "zz_vp_"+filepath.Base(dir)+"_"+filepath.Base(c))] = c
 		}
